@@ -352,7 +352,7 @@ structure WFq (u : URL) : Prop where
   scheme_ok : ∀ c ∈ u.scheme, notIn schemeStop c = true
   host_ne : u.host ≠ []
   host_form : HostOK env full u
-  idna_dec : env.idnaDec u.host = some u.host
+  idna_dec : isAsciiText u.host = true → env.idnaDec u.host = some u.host
   port_ok : PortNat u
   path_abs : ∃ rest, u.pathParts = [] :: rest
   query_ok : ∀ kv ∈ u.query, ¬ (D kv.1 = [] ∧ kv.2 = none)
@@ -425,7 +425,13 @@ theorem ofText_urlText (u : URL) (hW : WFq env full D u) (hnil : env.nfc [] = []
   unfold URL.ofText
   simp only [hS.scheme, hS.auth, hS.path, hS.query, hS.frag, Option.getD_some, Option.isSome_some]
   rw [parseAuthority_render env u hf hW.user_scalar hW.pw_scalar]
-  simp only [hW.host_ne, if_false, hf.ascii, if_true, hW.idna_dec]
+  have hdec : (if u.host = [] then some [] else if isAsciiText u.host = true then env.idnaDec u.host else some u.host)
+      = some u.host := by
+    rw [if_neg hW.host_ne]
+    by_cases ha : isAsciiText u.host = true
+    · rw [if_pos ha]; exact hW.idna_dec ha
+    · rw [if_neg ha]
+  simp only [hdec]
   have hparts : u.pathParts ≠ [] := by rw [hrest]; simp
   rw [pathText_parts env full D u.pathParts hparts hW.q_parts]
   rw [parseQsl_queryText env full D u.query hW.q_query hW.query_ok]
@@ -607,7 +613,7 @@ structure WF (env : Env) (u : URL) : Prop where
   scheme_ok : ∀ c ∈ u.scheme, notIn schemeStop c = true
   host_ne : u.host ≠ []
   host_form : HostOK env true u
-  idna_dec : env.idnaDec u.host = some u.host
+  idna_dec : isAsciiText u.host = true → env.idnaDec u.host = some u.host
   port_ok : PortNat u
   path_abs : ∃ rest, u.pathParts = [] :: rest
   query_ok : ∀ kv ∈ u.query, ¬ (env.nfc kv.1 = [] ∧ kv.2 = none)
@@ -663,7 +669,7 @@ structure WFmin (env : Env) (u : URL) : Prop where
   scheme_ok : ∀ c ∈ u.scheme, notIn schemeStop c = true
   host_ne : u.host ≠ []
   host_form : HostOK env false u
-  idna_dec : env.idnaDec u.host = some u.host
+  idna_dec : isAsciiText u.host = true → env.idnaDec u.host = some u.host
   port_ok : PortNat u
   path_abs : ∃ rest, u.pathParts = [] :: rest
   query_ok : ∀ kv ∈ u.query, ¬ (kv.1 = [] ∧ kv.2 = none)
